@@ -8,7 +8,7 @@ import (
 )
 
 // FaultKinds lists the asset faults the generator can inject between sprints.
-var FaultKinds = []string{"delete_flow", "delete_parent_flow", "delete_node", "strip_router", "strip_wait", "strip_timeout", "change_type", "rewire_exits", "none", "delete_parent_node", "strip_parent_router"}
+var FaultKinds = []string{"delete_flow", "delete_parent_flow", "delete_node", "strip_router", "strip_wait", "strip_timeout", "change_type", "rewire_exits", "none", "delete_parent_node", "strip_parent_router", "dangling_destination"}
 
 // ApplyFault rewrites the asset document relative to where the session is waiting.
 func ApplyFault(doc json.RawMessage, session flows.Session, f *Fault) (json.RawMessage, error) {
@@ -113,6 +113,30 @@ func ApplyFault(doc json.RawMessage, session flows.Session, f *Fault) (json.RawM
 					kept = append(kept, nm)
 				}
 				pfm["nodes"] = kept
+			}
+		}
+	case "dangling_destination":
+		// a node the waiting node leads to is removed while the exits keep pointing at it: the new revision of the flow still
+		// parses but does not validate
+		if node != nil {
+			target := ""
+			if exits, ok := node["exits"].([]any); ok {
+				for _, e := range exits {
+					if em, ok := e.(map[string]any); ok {
+						if d, _ := em["destination_uuid"].(string); d != "" && d != nodeUUID {
+							target = d
+						}
+					}
+				}
+			}
+			if target != "" {
+				kept := []any{}
+				for _, n := range nodes {
+					if nm := n.(map[string]any); nm["uuid"] != target {
+						kept = append(kept, nm)
+					}
+				}
+				fm["nodes"] = kept
 			}
 		}
 	case "strip_router":
